@@ -43,6 +43,7 @@ def run(tier):
              expect='C06_UpgradingOnlyDuringHandshakeRaw'),
     ]
     core.run_tlc_jobs(ck, jobs)
+    core.l2_models(ck, th)
 
     seed = ck.seed
     n = 400 if th else 120
@@ -82,6 +83,7 @@ def run(tier):
     plans.append(core.preempt_plan(seed + 1, 300 if th else 40, 24, 2, w_poll, cfgA,
                                    'polling, overlapping polls, sends'))
     core.conform(ck, plans)
+    core.l2_conform(ck, seed, 300 if th else 60)
     ck.cov['rule'] = ('case = one environment script (opens, polls, posts, frames, sends, clock '
                       'advances) executed on one server implementation; distinct by the sequence of '
                       'recorded actions with arguments; non-trivial = every script (each contains at '
